@@ -163,10 +163,13 @@ PROPS = {
     ),
     "C05": dict(
         module="Anonymongo.Props.C05",
-        theorems=["Anonymongo.C05_valid", "Anonymongo.C05_class", "Anonymongo.C05_decision_value_free"],
+        theorems=["Anonymongo.C05_valid", "Anonymongo.C05_class", "Anonymongo.C05_decision_value_free",
+                  "Anonymongo.C05_tree", "Anonymongo.C05_placeholder_member", "Anonymongo.classOf_kind", "Anonymongo.Ctx.typeOK_of_leafOK",
+                  "Anonymongo.C03_reparse", "Anonymongo.parse_printStr"],
+        extra_modules=["Anonymongo.Props.C05b", "Anonymongo.Props.C03b"],
         corr=["misc", "sweep", "line"],
         statement="the regenerated constants are a valid ISO instant / 24 hex digits / canonical base64 / e-mail shaped / 0 / false (kernel decide over Generated.tables); for every key path, value, mode and flag set in placeholder mode redactScalarValue returns the value unchanged for path reasons only, or exactly the placeholder of the value's class (date/oid/base64/subType/e-mail/string/number/bool/null)",
-        partial="that every zone slot of the walkers reaches redactScalarValue with the right parent / grand-parent keys is the leaf-by-leaf oracle and the table sweep (this is where the slice-aliasing defect lived); survival of an arbitrary --replacement through serialisation is covered by the print/parse correspondence, not yet by a theorem",
+        partial="WHOLE TREES (C05_tree, Props/C05b): placeholder mode, full-redaction mode, field-name redaction off, regenerated tables: from every walker state, for EVERY tree, each output leaf is the input leaf, a pseudonym, or the placeholder of the input leaf's class judged under the key path of that very position (PathOf), and that placeholder is a well-formed member of the class (ISO instant / 24 hex digits / canonical base64 / e-mail shaped / 0 / false) of the same JSON kind as the leaf (C05_placeholder_member); an arbitrary --replacement survives serialisation: parse_printStr / C03_reparse (parsing the emitted line gives back exactly the tree the redactor built, for every string). Left to the correspondence: that the Go walkers hand redactScalarValue the parent / grand-parent keys the model does (the leaf-by-leaf oracle and the table sweep; this is where the slice-aliasing defect lived); selective / encrypt modes are C14 / C10",
     ),
     "C09": dict(
         module="Anonymongo.Props.C09",
